@@ -111,6 +111,21 @@ object looks missing; the state itself is untouched.  Several backends (processe
 store: they are handles on the same `St`, the model has no per-process state. -/
 def getAway (k : Key) (s : St) : Except Err (Option Val) := get k { s with store := s.store.map fun _ => [] }
 
+/-- Does the store hold an object for `k`? -/
+def hasObject (k : Key) (s : St) : Bool :=
+  match s.store with
+  | some st => (lookup k st).isSome
+  | none => false
+
+/-- Re-recording a value whose store object exists, while *another* backend reads that value at the moment the
+recorder would be between "object opened for writing" and "closed".  `ValueStore.put` returns before opening an
+object that exists, so there is no in-progress object: the reader sees the state right after `serialize()`.
+`none` = the object does not exist (a first write; no interleaving is staged).  A write fault (ENOSPC) injected into
+the same window cannot strike either, for the same reason: a fault-injected re-record is `record`. -/
+def recordWatch (fn : Bytes → Bytes) (v : Val) (cfg : Cfg) (s : St) :
+    (St × Except Err Key) × Option (Except Err (Option Val)) :=
+  (record fn v cfg s, if hasObject (key fn v) s then some (get (key fn v) (serialize fn v s)) else none)
+
 /-! mutations of the environment -/
 def dropStore (k : Key) (s : St) : St := { s with store := s.store.map (dropKey k) }
 def dropFc (f : Bytes) (s : St) : St := { s with fc := dropKey f s.fc }
